@@ -297,12 +297,12 @@ type Snapshot struct {
 // Snapshot reads the abstract state through the RAW collaborators (nothing is recorded,
 // nothing can be failed). Call Quiesce first if an operation has just finished.
 func (cl *Cluster) Snapshot() *Snapshot {
-	ctx, cancel := context.WithTimeout(context.Background(), 20*time.Second)
+	ctx, cancel := context.WithTimeout(context.Background(), 120*time.Second)
 	defer cancel()
 	raw, rm := cl.Store.Store, cl.Rmgr.Manager
 	s := &Snapshot{Pods: []string{}, Nodes: []NodeSnap{}, Workloads: []WorkloadSnap{}, WorkloadIDs: []string{}, DeployIDs: []string{},
 		Containers: []ContainerSnap{}, Markers: []MarkerSnap{}, WAL: cl.WAL.Pending(), PluginNodes: []string{}}
-	resp, err := cl.Etcd.Get(ctx, "/", clientv3.WithPrefix(), clientv3.WithKeysOnly())
+	resp, err := cl.etcdGet("/", clientv3.WithPrefix(), clientv3.WithKeysOnly())
 	if err != nil {
 		cl.T.Fatalf("snapshot: etcd: %v", err)
 	}
@@ -323,9 +323,9 @@ func (cl *Cluster) Snapshot() *Snapshot {
 		case strings.HasPrefix(k, "/processing/"):
 			parts := strings.Split(strings.TrimPrefix(k, "/processing/"), "/")
 			if len(parts) == 4 {
-				v, _ := cl.Etcd.Get(ctx, k)
+				v, verr := cl.etcdGet(k)
 				cnt := 0
-				if len(v.Kvs) == 1 {
+				if verr == nil && len(v.Kvs) == 1 {
 					cnt, _ = strconv.Atoi(string(v.Kvs[0].Value))
 				}
 				s.Markers = append(s.Markers, MarkerSnap{App: parts[0], Entry: parts[1], Node: parts[2], Ident: parts[3], Count: cnt})
@@ -336,6 +336,10 @@ func (cl *Cluster) Snapshot() *Snapshot {
 	sort.Strings(s.DeployIDs)
 	for _, name := range nodeNames {
 		n, err := raw.GetNode(ctx, name)
+		for i := 0; err != nil && i < 4; i++ {
+			time.Sleep(300 * time.Millisecond)
+			n, err = raw.GetNode(ctx, name)
+		}
 		if err != nil {
 			cl.T.Fatalf("snapshot: GetNode %s: %v", name, err)
 		}
@@ -345,6 +349,10 @@ func (cl *Cluster) Snapshot() *Snapshot {
 		}
 		sort.Strings(ns.Labels)
 		ws, err := raw.ListNodeWorkloads(ctx, name, nil)
+		for i := 0; err != nil && i < 4; i++ {
+			time.Sleep(300 * time.Millisecond)
+			ws, err = raw.ListNodeWorkloads(ctx, name, nil)
+		}
 		if err != nil {
 			cl.T.Fatalf("snapshot: ListNodeWorkloads %s: %v", name, err)
 		}
@@ -379,8 +387,24 @@ type Checkpoint struct {
 	wal        map[int]bool // WAL events pending at checkpoint time (kept on restore)
 }
 
+// etcdGet retries a read of the kit itself (the embedded etcd can time out when the machine is overloaded)
+func (cl *Cluster) etcdGet(key string, opts ...clientv3.OpOption) (*clientv3.GetResponse, error) {
+	var resp *clientv3.GetResponse
+	var err error
+	for i := 0; i < 5; i++ {
+		ctx, cancel := context.WithTimeout(context.Background(), 30*time.Second)
+		resp, err = cl.Etcd.Get(ctx, key, opts...)
+		cancel()
+		if err == nil {
+			return resp, nil
+		}
+		time.Sleep(time.Duration(i+1) * 200 * time.Millisecond)
+	}
+	return resp, err
+}
+
 func (cl *Cluster) dumpKVs(ctx context.Context) map[string]string {
-	resp, err := cl.Etcd.Get(ctx, "", clientv3.WithPrefix())
+	resp, err := cl.etcdGet("", clientv3.WithPrefix())
 	if err != nil {
 		cl.T.Fatalf("checkpoint: %v", err)
 	}
@@ -409,14 +433,24 @@ func (cl *Cluster) Restore(cp *Checkpoint) {
 	cur := cl.dumpKVs(ctx)
 	for k := range cur {
 		if _, ok := cp.kvs[k]; !ok {
-			if _, err := cl.Etcd.Delete(ctx, k); err != nil {
+			_, err := cl.Etcd.Delete(ctx, k)
+			for i := 0; err != nil && i < 4; i++ {
+				time.Sleep(300 * time.Millisecond)
+				_, err = cl.Etcd.Delete(context.Background(), k)
+			}
+			if err != nil {
 				cl.T.Fatalf("restore: %v", err)
 			}
 		}
 	}
 	for k, v := range cp.kvs {
 		if cur[k] != v {
-			if _, err := cl.Etcd.Put(ctx, k, v); err != nil {
+			_, err := cl.Etcd.Put(ctx, k, v)
+			for i := 0; err != nil && i < 4; i++ {
+				time.Sleep(300 * time.Millisecond)
+				_, err = cl.Etcd.Put(context.Background(), k, v)
+			}
+			if err != nil {
 				cl.T.Fatalf("restore: %v", err)
 			}
 		}
